@@ -31,7 +31,7 @@ def float_clamp(res, facts, ty, lo, hi):
                 st.ctx.assume(cmp_term('Gt', x.term, hi))
         outs = it.run(it.start(path, [x], state=st))
         res.absorb(it)
-        for o in outs:
+        for o in sem_iter(outs):
             inst = '%s::from|%s' % (name, pname)
             if o.status != 'returned' or not isinstance(o.ret, StructV):
                 res.ob('R-CLAMP', inst, False, 'path ends with %s: %s' % (o.status, o.panic_info), where, key='R-CLAMP:' + inst)
@@ -54,7 +54,7 @@ def float_clamp(res, facts, ty, lo, hi):
         st = State()
         v = it.sym_value(st, adt_ty(ty), 'v')
         outs = it.run(it.start(rev, [v], state=st))
-        for o in outs:
+        for o in sem_iter(outs):
             res.ob('R-CLAMP', 'f32::from(%s)' % name, o.status == 'returned' and isinstance(o.ret, Num) and o.ret.term == v.fields[0].term, 'returns %r' % (o.ret,), where_of(facts, rev))
     else:
         res.ob('R-CLAMP', 'f32::from(%s)' % name, False, 'reverse conversion not found (anchor)', key='R-CLAMP:rev:' + name)
@@ -68,7 +68,7 @@ def int_clamp(res, facts, path, lim, extract, argname='n'):
         n = int_sym(st, argname, lo, hi)
         outs = it.run(it.start(path, [n], state=st))
         res.absorb(it)
-        for o in outs:
+        for o in sem_iter(outs):
             t = extract(o.ret) if o.status == 'returned' else None
             exp = n.term if hi <= lim else Poly.const(lim)
             res.ob('R-CLAMP', '%s|%s' % ('::'.join(path.split('::')[-2:]), pname), t == exp, 'result %r for %s in [%d,%d]; expected %r' % (t, argname, lo, hi, exp), where,
@@ -126,7 +126,7 @@ def check_clamps(res, facts, tier='quick'):
     it = Interp(facts)
     st = State()
     v = it.sym_value(st, adt_ty(NOTE), 'v')
-    for o in it.run(it.start(rev, [v], state=st)):
+    for o in sem_iter(it.run(it.start(rev, [v], state=st))):
         res.ob('R-CLAMP', 'u8::from(Note)', o.status == 'returned' and isinstance(o.ret, Num) and o.ret.term == v.fields[0].term, 'returns %r' % (o.ret,), where_of(facts, rev))
     # the envelope stores exactly what the conversion produced (so x and its bound configure identically)
     from . import dds
